@@ -20,7 +20,15 @@ def expr(ch: Choices, vs: list[str], depth: int = 0) -> str:
     if k == 7:
         return f"({expr(ch, vs, depth + 1)} if {cond(ch, vs, depth + 1)} else {expr(ch, vs, depth + 1)})"
     if k == 8:
-        return f"({ch.pick(vs, 'walrus_t')} := {expr(ch, vs, depth + 1)})"
+        c = ch.draw(3, "k8")
+        if c == 0:
+            return f"({ch.pick(vs, 'walrus_t')} := {expr(ch, vs, depth + 1)})"
+        it = ch.pick(("i", "j"), "comp_var")
+        el = f"{it} + {ch.pick(vs, 'comp_use')}"
+        flt = f" if {ch.pick(vs, 'comp_cond')} < {it}" if ch.draw(2, "comp_if") else ""
+        if c == 1:
+            return f"[{el} for {it} in range({ch.pick(vs, 'comp_n')}){flt}]"
+        return f"array({el} for {it} in range(3))"
     return f"f({expr(ch, vs, depth + 1)})"
 
 
@@ -42,36 +50,38 @@ def cond(ch: Choices, vs: list[str], depth: int = 0) -> str:
 
 
 def body(ch: Choices, vs: list[str], depth: int, in_loop: bool, budget: list[int],
-         nested_ok: bool = True) -> list[str]:
+         nested_ok: bool = True, no_jumps: bool = False) -> list[str]:
     out: list[str] = []
     n = ch.rng_int(1, 4, "body_len")
     for _ in range(n):
         if budget[0] <= 0:
             break
         budget[0] -= 1
-        k = ch.draw(20, "stmt")
+        k = ch.draw(22, "stmt")
+        if no_jumps and k in (13, 14, 15):
+            k = 19
         if k < 5:
             out.append(f"{ch.pick(vs, 't')} = {expr(ch, vs)}")
         elif k < 7:
             out.append(f"{ch.pick(vs, 't')} += {expr(ch, vs)}")
         elif k < 10 and depth < 3:
             out.append(f"if {cond(ch, vs)}:")
-            out += ind(body(ch, vs, depth + 1, in_loop, budget, nested_ok))
+            out += ind(body(ch, vs, depth + 1, in_loop, budget, nested_ok, no_jumps))
             e = ch.draw(3, "else")
             if e == 1:
                 out.append("else:")
-                out += ind(body(ch, vs, depth + 1, in_loop, budget, nested_ok))
+                out += ind(body(ch, vs, depth + 1, in_loop, budget, nested_ok, no_jumps))
             elif e == 2:
                 out.append(f"elif {cond(ch, vs)}:")
-                out += ind(body(ch, vs, depth + 1, in_loop, budget, nested_ok))
+                out += ind(body(ch, vs, depth + 1, in_loop, budget, nested_ok, no_jumps))
                 out.append("else:")
-                out += ind(body(ch, vs, depth + 1, in_loop, budget, nested_ok))
+                out += ind(body(ch, vs, depth + 1, in_loop, budget, nested_ok, no_jumps))
         elif k < 12 and depth < 3:
             out.append(f"while {cond(ch, vs)}:")
-            out += ind(body(ch, vs, depth + 1, True, budget, nested_ok))
+            out += ind(body(ch, vs, depth + 1, True, budget, nested_ok, no_jumps))
         elif k == 12 and depth < 3:
             out.append(f"for {ch.pick(vs, 'for_t')} in range({ch.draw(4, 'n')}):")
-            out += ind(body(ch, vs, depth + 1, True, budget, nested_ok))
+            out += ind(body(ch, vs, depth + 1, True, budget, nested_ok, no_jumps))
         elif k == 13 and in_loop:
             out.append("break")
         elif k == 14 and in_loop:
@@ -87,6 +97,14 @@ def body(ch: Choices, vs: list[str], depth: int, in_loop: bool, budget: list[int
                        + [f"return {ch.pick(inner_vs, 'ret')}"])
             if name not in vs:
                 vs.append(name)
+        elif k in (20, 21) and depth < 3:
+            m = ch.draw(3, "modifier")
+            hdr = ("with dagger:", f"with control({ch.pick(vs, 'ctrl')}):",
+                   f"with power({ch.pick(vs, 'pow')}):")[m]
+            if ch.draw(4, "two_mods") == 0:
+                hdr = f"with control({ch.pick(vs, 'ctrl2')}), dagger:"
+            out.append(hdr)
+            out += ind(body(ch, vs, depth + 1, False, budget, False, True))
         elif k == 17:
             out.append(f"f({expr(ch, vs)})")
         elif k == 18:
